@@ -56,27 +56,46 @@ theorem join_running_no_call (cfg : Cfg) (s : St) (i f : Nat) (c : Client) (hc :
 
 /-! ### where answers come from -/
 
-theorem dialSend_prov (cfg : Cfg) (c : Client) (sch : Scheme) (a1 a2 : Att) (cache : List (Key × Entry)) :
-    ∀ p, p ∈ (dialSend cfg c sch a1 a2 cache).2 →
-      p ∈ cache ∨ ∃ m, (dialSend cfg c sch a1 a2 cache).1 = .ok m ∧ p.1 = c.key ∧ p.2.ans = m.ans := by
+theorem acceptResp_prov (c : Client) (m : UpMsg) (cache : List (Key × Entry)) :
+    ∀ p, p ∈ (acceptResp c m cache).2 →
+      p ∈ cache ∨ ∃ m', (acceptResp c m cache).1 = .ok m' ∧ p.1 = c.key ∧ p.2.ans = m'.ans := by
   intro p hp
-  generalize hd : dialSend cfg c sch a1 a2 cache = d at hp ⊢
-  unfold dialSend at hd
-  split at hd
-  · subst hd; exact .inl hp
-  · split at hd
+  unfold acceptResp at hp ⊢
+  simp only at hp ⊢
+  split at hp
+  · split at hp
+    · rcases mem_insert hp with rfl | ⟨hp, _⟩
+      · exact .inr ⟨_, rfl, rfl, rfl⟩
+      · exact .inl hp
+    · exact .inl hp
+  · exact .inl hp
+
+theorem dialSend_prov (cfg : Cfg) (c : Client) (rounds : List Round) :
+    ∀ (depth : Nat) (sch : Scheme) (cache : List (Key × Entry)),
+    ∀ p, p ∈ (dialSend cfg c depth sch rounds cache).2 →
+      p ∈ cache ∨ ∃ m, (dialSend cfg c depth sch rounds cache).1 = .ok m ∧ p.1 = c.key ∧ p.2.ans = m.ans := by
+  induction rounds with
+  | nil =>
+    intro depth sch cache p hp
+    unfold dialSend at hp
+    exact .inl hp
+  | cons r rest ih =>
+    intro depth sch cache p hp
+    generalize hd : dialSend cfg c depth sch (r :: rest) cache = d at hp ⊢
+    unfold dialSend at hd
+    split at hd
     · subst hd; exact .inl hp
     · split at hd
       · subst hd; exact .inl hp
-      · subst hd
-        simp only at hp ⊢
-        split at hp
-        · split at hp
-          · rcases mem_insert hp with rfl | ⟨hp, _⟩
-            · exact .inr ⟨_, rfl, rfl, rfl⟩
-            · exact .inl hp
-          · exact .inl hp
-        · exact .inl hp
+      · next m hm =>
+        split at hd
+        · subst hd; exact .inl hp
+        · split at hd
+          · subst hd; exact .inl hp
+          · split at hd
+            · subst hd; exact ih _ _ _ p hp
+            · subst hd; exact acceptResp_prov c m cache p hp
+            · subst hd; exact acceptResp_prov c _ cache p hp
 
 structure Prov (s : St) : Prop where
   cacheProv : ∀ (k : Key) (e : Entry), (k, e) ∈ s.cache → ∃ m : UpMsg, (k, m) ∈ s.accepted ∧ m.ans = e.ans
@@ -114,6 +133,8 @@ theorem prov_step (cfg : Cfg) (s : St) (a : Act) (hi : Inv s) (h : Prov s) : Pro
   | arrive i =>
     simp only [step]; split
     · next c hc hp =>
+      split
+      · exact prov_setPc _ _ _ (prov_emit _ _ _ h (by intro r hr; cases hr; exact .inl rfl))
       split
       · refine prov_setPc _ _ _ (prov_emit _ _ _ ?_ (by intro r hr; cases hr; exact .inl rfl))
         exact prov_cache_subset s _ (fun p hp => (List.mem_filter.mp hp).1) h
@@ -179,11 +200,11 @@ theorem prov_step (cfg : Cfg) (s : St) (a : Act) (hi : Inv s) (h : Prov s) : Pro
             exact .inr ⟨c, m0, hc, hm, ha⟩
       · exact h
     · exact h
-  | refresh i sch a1 a2 =>
+  | refresh i sch rounds =>
     simp only [step]; split
     · next c hc =>
-      have hp := dialSend_prov cfg c sch a1 a2 s.cache
-      generalize dialSend cfg c sch a1 a2 s.cache = d at hp ⊢
+      have hp := dialSend_prov cfg c rounds 0 sch s.cache
+      generalize dialSend cfg c 0 sch rounds s.cache = d at hp ⊢
       obtain ⟨r, cache'⟩ := d
       simp only at hp ⊢
       have mono : ∀ x, x ∈ s.accepted → x ∈ (match r with | .ok m => s.accepted ++ [(c.key, m)] | .err _ => s.accepted) := by
@@ -203,7 +224,7 @@ theorem prov_step (cfg : Cfg) (s : St) (a : Act) (hi : Inv s) (h : Prov s) : Pro
         · exact .inl ho
         · exact .inr ⟨c', m0, h1, mono _ h2, h3⟩
     · exact h
-  | resolve f sch a1 a2 =>
+  | resolve f sch rounds =>
     simp only [step]; split
     · next fl hf =>
       split
@@ -214,8 +235,8 @@ theorem prov_step (cfg : Cfg) (s : St) (a : Act) (hi : Inv s) (h : Prov s) : Pro
           rename_i c
           obtain ⟨c0, hc0, hck⟩ := hi.leaderKey f' fl hf
           rw [hc] at hc0; cases hc0
-          have hpv := dialSend_prov cfg c sch a1 a2 s.cache
-          generalize dialSend cfg c sch a1 a2 s.cache = d at hpv ⊢
+          have hpv := dialSend_prov cfg c rounds 0 sch s.cache
+          generalize dialSend cfg c 0 sch rounds s.cache = d at hpv ⊢
           obtain ⟨r, cache'⟩ := d
           simp only at hpv ⊢
           have mono : ∀ x, x ∈ s.accepted → x ∈ (match r with | .ok m => s.accepted ++ [(c.key, m)] | .err _ => s.accepted) := by
@@ -249,11 +270,11 @@ def AccSound (s : St) : Prop :=
 
 theorem acc_step (cfg : Cfg) (hcfg : cfg.checkQuestion = true) (s : St) (a : Act) (h : AccSound s) :
     AccSound (step cfg s a) := by
-  have key : ∀ (c : Client) (sch : Scheme) (a1 a2 : Att),
-      AccSound { s with accepted := match (dialSend cfg c sch a1 a2 s.cache).1 with
+  have key : ∀ (c : Client) (sch : Scheme) (rounds : List Round),
+      AccSound { s with accepted := match (dialSend cfg c 0 sch rounds s.cache).1 with
         | .ok m => s.accepted ++ [(c.key, m)] | .err _ => s.accepted } := by
-    intro c sch a1 a2 k m hm
-    have hs := (dialSend_spec cfg hcfg c sch a1 a2 s.cache).1
+    intro c sch rounds k m hm
+    have hs := (dialSend_spec cfg hcfg c rounds 0 sch s.cache).1
     simp only at hm
     split at hm
     · rename_i m' hr
@@ -265,17 +286,17 @@ theorem acc_step (cfg : Cfg) (hcfg : cfg.checkQuestion = true) (s : St) (a : Act
         exact ⟨mq, hq, hi⟩
     · exact h k m hm
   cases a with
-  | refresh i sch a1 a2 =>
+  | refresh i sch rounds =>
     simp only [step]; split
-    · next c hc => exact key c sch a1 a2
+    · next c hc => exact key c sch rounds
     · exact h
-  | resolve f sch a1 a2 =>
+  | resolve f sch rounds =>
     simp only [step]; split
     · split
       · next c _ _ =>
         split
-        · have := key ‹Client› sch a1 a2
-          generalize hd : dialSend cfg ‹Client› sch a1 a2 s.cache = d at this ⊢
+        · have := key ‹Client› sch rounds
+          generalize hd : dialSend cfg ‹Client› 0 sch rounds s.cache = d at this ⊢
           obtain ⟨r, cache'⟩ := d
           exact this
         · exact h
@@ -299,6 +320,135 @@ theorem prov_run (cfg : Cfg) (hcfg : cfg.checkQuestion = true) (as : List Act) :
   induction as with
   | nil => intro s _ h; exact h
   | cons a as ih => intro s hi h; exact ih _ (inv_step cfg hcfg s a hi) (prov_step cfg s a hi h)
+
+/-! ### queries that do not carry exactly one question never get past the FORMERR guard -/
+
+/-- a client whose query does not carry exactly one question is either not yet handled or done, and what it
+got is the FORMERR reply built from its own message -/
+def FormP (clients : List Client) (pcs : List Pc) (outs : List (Nat × Outcome)) : Prop :=
+  (∀ (i : Nat) (c : Client), clients[i]? = some c → c.nq ≠ 1 → pcs[i]? = some .init ∨ pcs[i]? = some .done) ∧
+  (∀ (i : Nat) (o : Outcome) (c : Client), (i, o) ∈ outs → clients[i]? = some c → c.nq ≠ 1 →
+    o = .wrote (ownReply c rcodeFormErr false))
+
+def FormInv (s : St) : Prop := FormP s.clients s.pcs s.outs
+
+theorem formInv_init (cs : List Client) : FormInv (init cs) := by
+  refine ⟨?_, ?_⟩
+  · intro i c hc _
+    left
+    have hc' : cs[i]? = some c := hc
+    simp only [init, List.getElem?_map, hc', Option.map_some]
+  · intro i o c ho; simp [init] at ho
+
+theorem formP_set {cl : List Client} {pcs : List Pc} {outs : List (Nat × Outcome)} (h : FormP cl pcs outs)
+    (i : Nat) (p' : Pc) (hlt : i < pcs.length)
+    (hp' : ∀ c, cl[i]? = some c → c.nq ≠ 1 → p' = .init ∨ p' = .done) : FormP cl (pcs.set i p') outs := by
+  refine ⟨?_, h.2⟩
+  intro j c hc hn
+  by_cases hij : i = j
+  · subst hij
+    rw [List.getElem?_set_self hlt]
+    rcases hp' c hc hn with rfl | rfl
+    · exact .inl rfl
+    · exact .inr rfl
+  · rw [List.getElem?_set_ne hij]; exact h.1 j c hc hn
+
+theorem formP_emit {cl : List Client} {pcs : List Pc} {outs : List (Nat × Outcome)} (h : FormP cl pcs outs)
+    (i : Nat) (o : Outcome)
+    (ho : ∀ c, cl[i]? = some c → c.nq ≠ 1 → o = .wrote (ownReply c rcodeFormErr false)) :
+    FormP cl pcs (outs ++ [(i, o)]) := by
+  refine ⟨h.1, ?_⟩
+  intro j o' c hm hc hn
+  rcases List.mem_append.mp hm with hm | hm
+  · exact h.2 j o' c hm hc hn
+  · simp only [List.mem_singleton, Prod.mk.injEq] at hm
+    obtain ⟨rfl, rfl⟩ := hm
+    exact ho c hc hn
+
+/-- a client standing anywhere but `init` / `done` asked exactly one question -/
+theorem formP_nq {cl : List Client} {pcs : List Pc} {outs : List (Nat × Outcome)} (h : FormP cl pcs outs)
+    {i : Nat} {c : Client} {p : Pc} (hc : cl[i]? = some c) (hp : pcs[i]? = some p) (h1 : p ≠ .init) (h2 : p ≠ .done) :
+    c.nq = 1 := by
+  by_cases hn : c.nq = 1
+  · exact hn
+  · rcases h.1 i c hc hn with h' | h' <;> (rw [hp] at h'; cases h'; contradiction)
+
+theorem formInv_step (cfg : Cfg) (s : St) (a : Act) (h : FormInv s) : FormInv (step cfg s a) := by
+  have lt_of {i : Nat} {p : Pc} (hp : s.pcs[i]? = some p) : i < s.pcs.length := by
+    rcases List.getElem?_eq_some_iff.mp hp with ⟨h, _⟩; exact h
+  unfold FormInv at h ⊢
+  cases a with
+  | refuse i =>
+    simp only [step]; split
+    · next c hc hp =>
+      refine formP_set (formP_emit h i _ ?_) i _ (lt_of hp) (fun _ _ _ => .inr rfl)
+      intro c' hc' hn
+      rw [hc] at hc'; cases hc'
+      simp [hn]
+    · exact h
+  | arrive i =>
+    simp only [step]; split
+    · next c hc hp =>
+      split
+      · refine formP_set (formP_emit h i _ ?_) i _ (lt_of hp) (fun _ _ _ => .inr rfl)
+        intro c' hc' _
+        rw [hc] at hc'; cases hc'; rfl
+      · next hn =>
+        have hn1 : c.nq = 1 := by
+          by_cases hh : c.nq = 1
+          · exact hh
+          · exact absurd hh hn
+        have hno : ∀ c', s.clients[i]? = some c' → c'.nq ≠ 1 → False := by
+          intro c' hc' hn'; rw [hc] at hc'; cases hc'; exact hn' hn1
+        split
+        · exact formP_set (formP_emit h i _ (fun c' hc' hn' => (hno c' hc' hn').elim)) i _ (lt_of hp)
+            (fun _ _ _ => .inr rfl)
+        · split
+          · exact formP_set (formP_emit h i _ (fun c' hc' hn' => (hno c' hc' hn').elim)) i _ (lt_of hp)
+              (fun _ _ _ => .inr rfl)
+          · exact formP_set h i _ (lt_of hp) (fun c' hc' hn' => (hno c' hc' hn').elim)
+    · exact h
+  | join i =>
+    simp only [step]; split
+    · next c hc hp =>
+      have hn1 := formP_nq h hc hp (by simp) (by simp)
+      have hno : ∀ c', s.clients[i]? = some c' → c'.nq ≠ 1 → False := by
+        intro c' hc' hn'; rw [hc] at hc'; cases hc'; exact hn' hn1
+      (repeat' split) <;> exact formP_set h i _ (lt_of hp) (fun c' hc' hn' => (hno c' hc' hn').elim)
+    · exact h
+  | wake i =>
+    simp only [step]; split
+    · next c f hc hp =>
+      have hn1 := formP_nq h hc hp (by simp) (by simp)
+      have hno : ∀ c', s.clients[i]? = some c' → c'.nq ≠ 1 → False := by
+        intro c' hc' hn'; rw [hc] at hc'; cases hc'; exact hn' hn1
+      (repeat' split) <;> first
+        | exact h
+        | exact formP_set (formP_emit h i _ (fun c' hc' hn' => (hno c' hc' hn').elim)) i _ (lt_of hp)
+            (fun _ _ _ => .inr rfl)
+    · exact h
+  | resolve f sch rounds =>
+    simp only [step]; split
+    · next fl hf =>
+      split
+      · next f' hres hc hp =>
+        rename_i c
+        have hn1 := formP_nq h hc hp (by simp) (by simp)
+        have hno : ∀ c', s.clients[fl.leader]? = some c' → c'.nq ≠ 1 → False := by
+          intro c' hc' hn'; rw [hc] at hc'; cases hc'; exact hn' hn1
+        split
+        · exact formP_set h _ _ (lt_of hp) (fun c' hc' hn' => (hno c' hc' hn').elim)
+        · exact h
+      · exact h
+    · exact h
+  | refresh i sch rounds => simp only [step]; split <;> exact h
+  | evict k => exact h
+  | respell k sp => exact h
+
+theorem formInv_run (cfg : Cfg) (as : List Act) : ∀ s, FormInv s → FormInv (run cfg s as) := by
+  induction as with
+  | nil => intro s h; exact h
+  | cons a as ih => intro s h; exact ih _ (formInv_step cfg s a h)
 
 end Ctl
 end DaeVerif.C09
